@@ -55,7 +55,7 @@ func WriteShadowGreenpackToFileFunction(name string) ZlispUserFunction {
 		case *SexpStr:
 			fn = fna.S
 		default:
-			return SexpNull, fmt.Errorf("error: %s requires a string (SexpStr) path to write to as the second argument. we got type %T / value = %v", name, args[1], args[1])
+			return SexpNull, fmt.Errorf("error: %s requires a string (SexpStr) path to write to as the second argument. we got type %T / value = %s", name, args[1], args[1].SexpString(nil))
 		}
 
 		// don't overwrite existing file
@@ -111,7 +111,7 @@ func ReadGreenpackFromFileFunction(env *Zlisp, name string, args []Sexp) (Sexp, 
 	case *SexpStr:
 		fn = fna.S
 	default:
-		return SexpNull, fmt.Errorf("%s requires a string path to read. we got type %T / value = %v", name, args[0], args[0])
+		return SexpNull, fmt.Errorf("%s requires a string path to read. we got type %T / value = %s", name, args[0], args[0].SexpString(nil))
 	}
 
 	if !FileExists(string(fn)) {
